@@ -15,11 +15,14 @@ let parse_header h =
   match h with
   | threads :: limit :: cnum :: csize :: cchunks :: nitems :: rest ->
     (* "<threads>" or "<threads>:<MaxSenderTasks>" *)
-    let threads, maxtasks = (match String.split_on_char ':' threads with
-        | [t; m] -> t, int_of_string m | _ -> threads, 128) in
+    (* "<threads>" or "<threads>:<MaxSenderTasks>" or "<threads>:<MaxSenderTasks>:<memory of an empty payload>" *)
+    let threads, maxtasks, membase = (match String.split_on_char ':' threads with
+        | [t; m] -> t, int_of_string m, 1
+        | [t; m; b] -> t, int_of_string m, int_of_string b
+        | _ -> threads, 128, 1) in
     let cfg = { c_threads = n_of_tok threads; c_maxtasks = nz maxtasks; c_limit = n_of_tok limit;
                 c_maxnum = n_of_tok cnum; c_maxsize = n_of_tok csize; c_maxchunks = n_of_tok cchunks;
-                c_membase = nz 1 } in
+                c_membase = nz membase } in
     let rec items k l = if k = 0 then [] else match l with
       | a :: b :: c :: r -> { it_key = n_of_tok a; it_size = n_of_tok b; it_mem = n_of_tok c } :: items (k - 1) r
       | _ -> failwith "short items" in
@@ -210,6 +213,28 @@ let eval inp obs =
   let header, ops = groups inp in
   if (match header with "W" :: _ -> true | _ -> false) then eval_pool header ops obs else
   let (cfg, db) = parse_header header in
+  (* a history ending with S = Stop() while responses are in flight: outside the model; the
+     specification without the chunk-count clause judges what was sent *)
+  if List.mem ["S"] ops || zi cfg.c_limit = 0 then begin
+    (* (also: MaxPendingResponsesSize = 0, where the reader never serves anything) *)
+    let hops = List.map hop_of (List.filter (fun o -> o <> ["S"]) ops) in
+    let rec assignments = function
+      | [] -> [[]]
+      | HRace (p, reqs, _) :: r ->
+        let tails = assignments r in
+        let m = 2 * List.length reqs + 1 in
+        List.concat (List.init (m + 1) (fun pos -> List.map (fun t -> HRace (p, reqs, nat_of_int pos) :: t) tails))
+      | h :: r -> List.map (fun t -> h :: t) (assignments r) in
+    let cands = assignments hops in
+    let cands = if List.length cands > 200 then [hops] else cands in
+    let ok = (try
+        let toks = List.filter (fun t -> t <> "STOPPED" && t.[0] <> 'M' && t.[0] <> 'X') obs in
+        let (_, _, incs, pend) = parse_obs db toks in
+        List.exists (fun hs -> seeder_spec_ok_stopped cfg db (sops_of (zi cfg.c_maxchunks) hs) incs pend) cands
+      with _ -> false) in
+    let mo = if zi cfg.c_limit = 0 then obs_of_model cfg db hops obs else obs in
+    { default_verdict with model_obs = mo; spec_ok = Some ok; model_spec_ok = true; nontrivial = false }
+  end else
   let hops = List.map hop_of ops in
   if not (well_formed hops) then { default_verdict with model_obs = ["BAD"]; nontrivial = false }
   else begin
